@@ -515,6 +515,10 @@ func (r *Run) RefOf(v any) Ref {
 	if (rv.Kind() == reflect.Pointer || rv.Kind() == reflect.Interface) && rv.IsNil() {
 		return Ref{Nil: true, Pop: -1}
 	}
+	if rv.Kind() == reflect.Pointer && rv.Type().Name() != "" {
+		// a value of a defined pointer type (type Ref *T): the object behind it is identified by the plain *T
+		v = rv.Convert(reflect.PointerTo(rv.Type().Elem())).Interface()
+	}
 	if w, ok := v.(*Wrap); ok {
 		return Ref{Pop: -1, Wrap: w, Obj: v}
 	}
